@@ -394,7 +394,7 @@ def main(argv):
         items=len(items),
         quick_slice="quick: on triangle2d half of the (setting, template, measure) product, elsewhere a quarter (fixed arithmetic slice); each item runs 9 of the 35 option sets (rotating)"
         if quick
-        else "full product, all 1024 option combinations",
+        else "full item product; each item runs a rotating 1/128 slice of the 1024 option combinations (all covered across items) plus the all-on set",
     )
 
     def work(chunk):
@@ -405,7 +405,11 @@ def main(argv):
                 h = sum(map(ord, "|".join(map(str, item)))) % 4
                 ol = [o for n, o in enumerate(opts_list) if n % 4 == h or n in (31,)]
             else:
-                ol = opts_list
+                # thorough: the full item product; each item runs a rotating 1/128 slice of the 1024 option combinations
+                # (all combinations are covered across items) plus the all-on set.  The complete product
+                # items x 1024 is about 6 million compute_form_data calls and does not finish in hours.
+                h = sum(map(ord, "|".join(map(str, item)))) % 128
+                ol = [o for n, o in enumerate(opts_list) if n % 128 == h or n == len(opts_list) - 1]
             check_item(item, ol, part, 1)
         return part.dict()
 
